@@ -350,6 +350,10 @@ def step (d : DState) (l : Line) : DState × List Verdict :=
   let a := l.args
   let o := l.obs
   let res := (getStr o "res").getD "ok"
+  -- the code's own assertion that a counter went below zero (`negative stat value`, `volume usage is negative`)
+  if res.startsWith "panic" && (res.splitOn "negative").length > 1 then
+    ({ d with dead := true }, [mono "metrics_eq/negative_panic" res])
+  else
   match l.op with
   | "addvol" =>
     match getNat a "ro", getNat o "id" with
